@@ -1,5 +1,6 @@
 import Uniseg.Impl.Loops
 import Uniseg.Explore
+import Uniseg.CertGen
 /-! Line-protocol driver: one operation per input line, one canonical output line each.
 Core-only (no Mathlib) so that it links as a `lean_exe`. -/
 open Uniseg Uniseg.Gen
@@ -155,13 +156,15 @@ def handle (toks : List String) : IO Unit := do
   | ["it", amb, h] => IO.println (iterOps amb.toNat! (parseHex h) "")
   | ["explore", alg, runes] =>
     for l in Explore.run alg ((runes.splitOn ",").filterMap String.toNat?) do IO.println l
+  | ["certgen", alg, runes] =>
+    for l in CertGen.run alg ((runes.splitOn ",").filterMap String.toNat?) do IO.println l
   | ["spec", alg, h] =>
     let rs := runeVals (Utf8.runesOf (parseHex h))
     let out :=
-      if alg == "g" then String.join ((Spec.specG rs).map Explore.b2s)
-      else if alg == "w" then String.join ((Spec.specW rs).map Explore.b2s)
-      else if alg == "s" then String.join ((Spec.specS rs).map Explore.b2s)
-      else String.join ((Spec.specL rs).map Explore.showLV)
+      if alg == "g" then String.join ((Spec.specG rs).map Auto.b2s)
+      else if alg == "w" then String.join ((Spec.specW rs).map Auto.b2s)
+      else if alg == "s" then String.join ((Spec.specS rs).map Auto.b2s)
+      else String.join ((Spec.specL rs).map Auto.showLV)
     IO.println (if out.isEmpty then "-" else out)
   | ["sync"] => do IO.println "sync"; (← IO.getStdout).flush
   | _ => IO.println "bad-op"
